@@ -43,6 +43,8 @@ type BE struct {
 	// stablePtrFields: fields read through a pointer parameter are not mutated during the call (used by R14.3 for
 	// the immutable syntax tree); off for the C02 proof
 	stablePtrFields bool
+	// inferred preconditions of private helpers (bounds2.go inferPre)
+	inferred map[*ssa.Function][]inferredPre
 }
 
 func newBE(c *Ctx) *BE {
